@@ -687,73 +687,95 @@ func init() {
 				return []Obligation{anchorMissing("FMT.original-text", "Meta.OriginalText / Parser.TokenText")}
 			}
 			var obs []Obligation
+			// leafOK: e is TokenText() or a local whose every definition is TokenText() / a concatenation
+			// of such; a parameter of an unexported helper (`p.recordLiteralText(v, text)`) is what
+			// every call of the helper passes
+			type viaSite struct {
+				u    FuncUnit
+				call *ast.CallExpr
+			}
+			var via []viaSite
+			var leafOK func(u FuncUnit, e ast.Expr, depth int) (bool, string)
+			leafOK = func(u FuncUnit, e ast.Expr, depth int) (bool, string) {
+				info := u.Pkg.TypesInfo
+				e = ast.Unparen(e)
+				if depth > 6 {
+					return false, "definition chain too deep"
+				}
+				switch x := e.(type) {
+				case *ast.BinaryExpr:
+					if x.Op == token.ADD {
+						if ok, why := leafOK(u, x.X, depth); !ok {
+							return false, why
+						}
+						return leafOK(u, x.Y, depth)
+					}
+				case *ast.CallExpr:
+					if originOf(Callee(info, x)) == tokText {
+						return true, ""
+					}
+				case *ast.SelectorExpr:
+					// tok.Text of a *token.Token
+					if x.Sel.Name == "Text" {
+						if tv, ok := info.Types[x.X]; ok && strings.HasSuffix(tv.Type.String(), "token.Token") {
+							return true, ""
+						}
+					}
+				case *ast.Ident:
+					o := info.Uses[x]
+					if v, ok := o.(*types.Var); ok && !v.IsField() {
+						if v.Parent() != nil && v.Parent() == v.Pkg().Scope() {
+							return false, "package-level variable " + v.Name()
+						}
+						// parameter?
+						for k, p := range paramObjs(u) {
+							if p != o {
+								continue
+							}
+							sites, refs := c.CallsTo(nil, u.Obj)
+							if u.Obj.Exported() || len(refs) > 0 || len(sites) == 0 {
+								return false, "parameter `" + v.Name() + "` (a value chosen by the caller, not the token's own text)"
+							}
+							for _, st := range sites {
+								if k >= len(st.Call.Args) || st.Call.Ellipsis.IsValid() {
+									return false, "parameter `" + v.Name() + "` passed variadically"
+								}
+								if ok2, w := leafOK(st.Unit, st.Call.Args[k], depth+1); !ok2 {
+									return false, "parameter `" + v.Name() + "`, and the call in " + st.Unit.Name() + " passes a value that is not a consumed token's text: " + w
+								}
+								via = append(via, viaSite{st.Unit, st.Call})
+							}
+							return true, ""
+						}
+						ndef := 0
+						okAll := true
+						why := ""
+						ast.Inspect(u.Decl.Body, func(n ast.Node) bool {
+							as, ok := n.(*ast.AssignStmt)
+							if !ok || len(as.Lhs) != len(as.Rhs) {
+								return true
+							}
+							for i, l := range as.Lhs {
+								if identObj(info, l) == o {
+									ndef++
+									if ok2, w := leafOK(u, as.Rhs[i], depth+1); !ok2 {
+										okAll, why = false, w
+									}
+								}
+							}
+							return true
+						})
+						if ndef == 0 {
+							return false, "`" + v.Name() + "` has no visible definition"
+						}
+						return okAll, why
+					}
+				}
+				return false, "`" + types.ExprString(e) + "` is not the text of a consumed token"
+			}
 			for _, u := range c.Funcs(func(p string) bool { return strings.HasPrefix(rel(p), "parser") }) {
 				info := u.Pkg.TypesInfo
 				ord := &ordinal{}
-				// leafOK: e is TokenText() or a local whose every definition is TokenText() / a concatenation of such
-				var leafOK func(e ast.Expr, depth int) (bool, string)
-				leafOK = func(e ast.Expr, depth int) (bool, string) {
-					e = ast.Unparen(e)
-					if depth > 4 {
-						return false, "definition chain too deep"
-					}
-					switch x := e.(type) {
-					case *ast.BinaryExpr:
-						if x.Op == token.ADD {
-							if ok, why := leafOK(x.X, depth); !ok {
-								return false, why
-							}
-							return leafOK(x.Y, depth)
-						}
-					case *ast.CallExpr:
-						if originOf(Callee(info, x)) == tokText {
-							return true, ""
-						}
-					case *ast.SelectorExpr:
-						// tok.Text of a *token.Token
-						if x.Sel.Name == "Text" {
-							if tv, ok := info.Types[x.X]; ok && strings.HasSuffix(tv.Type.String(), "token.Token") {
-								return true, ""
-							}
-						}
-					case *ast.Ident:
-						o := info.Uses[x]
-						if v, ok := o.(*types.Var); ok && !v.IsField() {
-							if v.Parent() != nil && v.Parent() == v.Pkg().Scope() {
-								return false, "package-level variable " + v.Name()
-							}
-							// parameter?
-							for _, p := range paramObjs(u) {
-								if p == o {
-									return false, "parameter `" + v.Name() + "` (a value chosen by the caller, not the token's own text)"
-								}
-							}
-							ndef := 0
-							okAll := true
-							why := ""
-							ast.Inspect(u.Decl.Body, func(n ast.Node) bool {
-								as, ok := n.(*ast.AssignStmt)
-								if !ok || len(as.Lhs) != len(as.Rhs) {
-									return true
-								}
-								for i, l := range as.Lhs {
-									if identObj(info, l) == o {
-										ndef++
-										if ok2, w := leafOK(as.Rhs[i], depth+1); !ok2 {
-											okAll, why = false, w
-										}
-									}
-								}
-								return true
-							})
-							if ndef == 0 {
-								return false, "`" + v.Name() + "` has no visible definition"
-							}
-							return okAll, why
-						}
-					}
-					return false, "`" + types.ExprString(e) + "` is not the text of a consumed token"
-				}
 				ast.Inspect(u.Decl.Body, func(n ast.Node) bool {
 					as, ok := n.(*ast.AssignStmt)
 					if !ok || len(as.Lhs) != len(as.Rhs) {
@@ -764,8 +786,16 @@ func init() {
 							continue
 						}
 						construct := ord.next("store OriginalText")
-						if ok, why := leafOK(as.Rhs[i], 0); ok {
+						via = nil
+						if ok, why := leafOK(u, as.Rhs[i], 0); ok {
 							obs = append(obs, mkOb(c, "FMT.original-text", u, construct, as, Proved, "`"+types.ExprString(as.Rhs[i])+"` is built from consumed token texts only", true))
+							vord := map[string]*ordinal{}
+							for _, vs := range via {
+								if vord[vs.u.Name()] == nil {
+									vord[vs.u.Name()] = &ordinal{}
+								}
+								obs = append(obs, mkOb(c, "FMT.original-text", vs.u, vord[vs.u.Name()].next("store OriginalText through "+shortName(u.Obj)), vs.call, Proved, "the spelling handed to the recording helper is built from consumed token texts only", true))
+							}
 						} else {
 							obs = append(obs, mkOb(c, "FMT.original-text", u, construct, as, Violated, "the recorded spelling `"+types.ExprString(as.Rhs[i])+"` is not the consumed tokens' own text ("+why+"): the formatter would re-emit a different spelling than the source had", true))
 						}
